@@ -174,7 +174,7 @@ class World(DuoWorld):
         def endpoint(*a, details=None, **k):
             from autobahn.wamp.exception import ApplicationError
             self.endpoint_calls.append((proc, tuple(jsonish(list(a))), jsonish(k)))
-            op = self.by_tok.get(a[0] if a else None)
+            op = self.by_tok.get(a[0]) if a else getattr(self, "delivering_op", None)  # (a call without arguments: the one being delivered)
             self.run.log("endpoint", proc, op.tok if op else None)
             if op is not None and getattr(op, "progressive", 0) and details is not None and details.progress is not None:
                 # progressive results: the less travelled way a responder's payload goes out
@@ -326,7 +326,12 @@ class World(DuoWorld):
             op.reply = "error-plain"
         op.args = [op.tok, 42]
         op.kwargs = {"k": "KW-" + op.tok}
-        if not flip and ch.flag("nested-payload", 0.4):
+        if not flip and ch.flag("no-payload-at-all", 0.12):
+            # a call / publish without arguments: the URI inside the ciphertext still binds the message, and the reply
+            # travels the way the request came in
+            op.args, op.kwargs = [], {}
+            self.run.probe("operation-without-payload")
+        elif not flip and ch.flag("nested-payload", 0.4):
             op.args = [op.tok, 42, {"items": ["N-" + op.tok, 1]}]
             op.kwargs = {"k": "KW-" + op.tok, "more": ["M-" + op.tok]}
         op.tamper = {}
@@ -499,6 +504,7 @@ class World(DuoWorld):
         op._n_prog = len(getattr(op, "progress_seen", None) or [])
         if direction == "event":
             op.event_encrypted = bool(getattr(msg, "enc_algo", None))
+        self.delivering_op = op
         err = self.deliver_to(side, msg)
         self.settle()
         if direction == "invocation":
